@@ -111,7 +111,7 @@ func smRunOne(s *search.Search, r smReq, out *hx.Nums) {
 			out.Int(0)
 		}
 	}
-	out.I(int64(score)).U(uint64(mv), uint64(ponder)).Int(cnt.Nodes).B(s.VerifAborted()).Int(s.VerifGen())
+	out.I(int64(score)).U(hx.M2U(mv), hx.M2U(ponder)).Int(cnt.Nodes).B(s.VerifAborted()).Int(s.VerifGen())
 	out.B(sbSnapEqual(before, after))
 }
 
@@ -152,7 +152,7 @@ func smDigest(s *search.Search, out *hx.Nums) {
 	for _, b := range bs {
 		out.Int(b.ix).U(b.pk)
 		for _, e := range b.es {
-			out.U(uint64(e.Move)).I(int64(e.Value), int64(e.Depth)).U(uint64(e.Type), uint64(e.Gen))
+			out.U(hx.M2U(e.Move)).I(int64(e.Value), int64(e.Depth)).U(uint64(e.Type), uint64(e.Gen))
 		}
 	}
 	hist, capt, c0, c1 := rk.VerifTables()
